@@ -1,9 +1,20 @@
 #!/bin/bash
 # setup_cmd: build the harness offline from files on disk.
+# The debug build is what every quick check needs; the other builds only save time for thorough tiers
+# (./check builds them on demand anyway), so their failure is not fatal.
 set -e
 cd "$(dirname "$0")/harness"
 export CARGO_NET_OFFLINE=true
 [ -f Cargo.lock ] || cp /repo/Cargo.lock Cargo.lock
-cargo build --quiet 2>&1 | grep -E "^error" -A8 || true
-cargo build --quiet
+if ! cargo build --quiet 2>/tmp/l4v-setup.log; then
+  grep -E "^error" -A8 /tmp/l4v-setup.log | head -60
+  exit 1
+fi
+rm -f /tmp/l4v-setup.log
+if [ "${L4V_SETUP_FULL:-1}" = "1" ]; then
+  cargo build --quiet --release 2>/dev/null || echo "note: release build failed (thorough C09-C11 will retry)"
+  cargo build --quiet --features bgrot --target-dir target-bg 2>/dev/null || echo "note: background_rotation build failed (thorough C05 will retry)"
+  CARGO_TARGET_DIR=target-miri MIRIFLAGS="-Zmiri-disable-isolation -Zmiri-permissive-provenance" \
+    cargo +nightly miri run --quiet --no-default-features -- miri C17 1 >/dev/null 2>&1 || echo "note: Miri warm-up failed (thorough C04/C05/C15/C17 will report it)"
+fi
 echo "setup ok"
